@@ -5,7 +5,7 @@
    (2) D is the minimum cost over all edit scripts (so "distance" means what Victor & Purpura define);
    (3) metric laws, bounds and the documented cost limits, for trains of every length. *)
 From Coq Require Import List ZArith Bool Arith Lia Reals Lra.
-From Inferno Require Import Base.Num Base.NumR C20.Model C20.Spec.
+From Inferno Require Import Base.Num Base.NumR Gen.SpikeMath C20.Model C20.Spec.
 Import ListNotations.
 Open Scope R_scope.
 
@@ -293,6 +293,12 @@ Proof.
   change (last (a :: b :: l) d) with (last (b :: l) d). apply IH. discriminate.
 Qed.
 
+(* the GENERATED loop body (Gen/SpikeMath.v, from victor_purpura_pair_dist's two nested loops): delete = up + 1,
+   insert = left + 1, shift = diag + cost * |x - y|, and the stored value is their minimum *)
+Theorem vp_cell_finite_is_min3 : forall up lft diag q x y : R,
+  vp_cell_finite RN up lft diag q x y = Rmin (Rmin (up + 1) (lft + 1)) (diag + q * Rabs (x - y)).
+Proof. intros. unfold vp_cell_finite. cbv zeta. rewrite !tmin_Rmin. rn_simpl. reflexivity. Qed.
+
 Section Refine.
 Variable cost : option R.
 (* row of the grid after the prefix p of t0: column c holds D (rev p) (rev (firstn c t1)) *)
@@ -301,7 +307,7 @@ Definition rowof (p t1 : list R) : list R := map (fun s => D cost (rev p) (rev s
 Lemma vp_cell_spec : forall up left diag x y,
   vp_cell RN cost up left diag x y = cell3 cost (up + 1) (left + 1) (fun q => diag + q * Rabs (x - y)).
 Proof.
-  intros. unfold vp_cell, cell3. destruct cost; rewrite !tmin_Rmin; rn_simpl; reflexivity.
+  intros. unfold vp_cell, vp_cell_finite, cell3. destruct cost; cbv zeta; rewrite !tmin_Rmin; rn_simpl; reflexivity.
 Qed.
 
 Lemma row_fill_spec : forall x p suf pre,
